@@ -162,6 +162,33 @@ fn analyze(src: &str) -> Verdict {
     Verdict::Ok(nfun, npaths)
 }
 
+
+/// Generated boundary programs: one function whose two returning paths differ by
+/// `stores * 2^levels` cells of ap (the short path's branch_align has to burn that much), so that
+/// the alignment value crosses the 2^15 / 2^16 operand boundaries.
+fn gen_align_program(levels: usize, stores: usize) -> String {
+    use std::fmt::Write;
+    let ty = |i: usize| if i == 0 { "felt252".to_string() } else { format!("S{i}") };
+    let mut s = String::from("type felt252 = felt252;\ntype NZ = NonZero<felt252>;\n");
+    for i in 1..=levels { writeln!(s, "type S{i} = Struct<ut@S{i}, {p}, {p}>;", p = ty(i - 1)).unwrap(); }
+    s.push_str("libfunc is_zero = felt252_is_zero;\nlibfunc align = branch_align;\nlibfunc drop_nz = drop<NZ>;\nlibfunc one = felt252_const<1>;\nlibfunc two = felt252_const<2>;\nlibfunc st = store_temp<felt252>;\n");
+    for i in 0..=levels { writeln!(s, "libfunc dup{i} = dup<{}>;", ty(i)).unwrap(); }
+    for i in 1..=levels { writeln!(s, "libfunc mk{i} = struct_construct<S{i}>;").unwrap(); }
+    writeln!(s, "libfunc st_big = store_temp<{t}>;\nlibfunc drop_big = drop<{t}>;", t = ty(levels)).unwrap();
+    s.push_str("is_zero([0]) { fallthrough() Long([1]) };\nalign() -> ();\none() -> ([2]);\nst([2]) -> ([2]);\nreturn([2]);\nLong:\nalign() -> ();\ndrop_nz([1]) -> ();\none() -> ([10]);\n");
+    // [10+i] holds a value of 2^i cells
+    for i in 0..levels { writeln!(s, "dup{i}([{a}]) -> ([{a}], [{b}]);\nmk{n}([{a}], [{b}]) -> ([{c}]);", a = 10 + i, b = 100 + i, c = 11 + i, n = i + 1).unwrap(); }
+    let big = 10 + levels;
+    for k in 0..stores { writeln!(s, "dup{levels}([{big}]) -> ([{big}], [{c}]);\nst_big([{c}]) -> ([{c}]);\ndrop_big([{c}]) -> ();", c = 200 + k).unwrap(); }
+    writeln!(s, "drop_big([{big}]) -> ();\ntwo() -> ([3]);\nst([3]) -> ([3]);\nreturn([3]);\nf@0([0]: felt252) -> (felt252);").unwrap();
+    s
+}
+fn generated() -> Vec<(String, String)> {
+    let thorough = std::env::var("VERIF_TIER").map(|t| t == "thorough").unwrap_or(false);
+    let shapes: &[(usize, usize)] = if thorough { &[(3, 1), (14, 1), (14, 2), (14, 3), (14, 4), (14, 5), (13, 4), (13, 8), (12, 16)] } else { &[(3, 1), (14, 2), (14, 4)] };
+    shapes.iter().map(|(l, n)| (format!("generated: paths differing by {n} x 2^{l} cells of ap"), gen_align_program(*l, *n))).collect()
+}
+
 fn corpus() -> Vec<std::path::PathBuf> {
     let mut out = vec![];
     if let Ok(rd) = std::fs::read_dir("/verif/contracts/native/corpus/c17") { for e in rd.filter_map(|e| e.ok()) { out.push(e.path()); } }
@@ -182,17 +209,22 @@ fn __verif_n_c17_casm_paths() {
     let files = corpus();
     let (mut ok_files, mut funs, mut paths, mut skipped) = (0u64, 0usize, 0usize, 0u64);
     let mut fails = vec![];
-    for f in &files {
-        let Ok(src) = std::fs::read_to_string(f) else { continue };
+    let mut inputs: Vec<(String, String)> = files.iter().filter_map(|f| std::fs::read_to_string(f).ok().map(|s| (f.display().to_string(), s))).collect();
+    let gens = generated();
+    let n_gen = gens.len();
+    inputs.extend(gens);
+    let mut gen_ok = 0;
+    for (name, src) in inputs {
+        let is_gen = name.starts_with("generated:");
         let h = std::thread::Builder::new().stack_size(128 << 20).spawn(move || catch_unwind(AssertUnwindSafe(|| analyze(&src)))).unwrap();
         match h.join() {
-            Ok(Ok(Verdict::Ok(n, p))) => { ok_files += 1; funs += n; paths += p; }
-            Ok(Ok(Verdict::Skip(w))) => { skipped += 1; println!("VERIF-N id=N/n_c17_casm_paths/skip status=skip file=\"{}\" why=\"{w}\"", f.display()); }
-            Ok(Ok(Verdict::Fail(w))) => fails.push((f.display().to_string(), w)),
+            Ok(Ok(Verdict::Ok(n, p))) => { ok_files += 1; funs += n; paths += p; if is_gen && n > 0 { gen_ok += 1; } }
+            Ok(Ok(Verdict::Skip(w))) => { skipped += 1; println!("VERIF-N id=N/n_c17_casm_paths/skip status=skip file=\"{name}\" why=\"{w}\""); }
+            Ok(Ok(Verdict::Fail(w))) => fails.push((name, w)),
             _ => skipped += 1,
         }
     }
-    let bound = format!("{} Sierra programs ({} compiled, {} skipped), {} functions with a Known declared change, {} entry-to-ret paths", files.len(), ok_files, skipped, funs, paths);
+    let bound = format!("{} Sierra programs ({} compiled, {} skipped; {n_gen} generated with path differences around 2^15 and 2^16 cells, {gen_ok} of them checked), {} functions with a Known declared change, {} entry-to-ret paths", files.len() + n_gen, ok_files, skipped, funs, paths);
     for (input, why) in &fails {
         let short = input.rsplit('/').next().unwrap_or(input);
         println!("VERIF-N id=N/n_c17_casm_paths/declared_vs_emitted:{short} status=fail key=\"{}\" input=\"{input}\" detail=\"{short}: {}\" bound=\"{bound}\"", why.replace('"', "'"), why.replace('"', "'"));
